@@ -34,6 +34,59 @@ def export_and_reparse(dom):
     return text, lib.parse_domain_text(text)
 
 
+def text_equivalence(ctx, rng, w, dm, text1, wit, thorough):
+    """second, library-free channel: the exported text, read by the reference reader, must mean what the source means.
+    Both readings are evaluated by the reference semantics on covering states that include, for every numeric
+    comparison of either text, valuations a hair on either side of its threshold - the states in which a constant
+    that lost decimals or a condition that was rewritten changes the answer.  (The library's own re-parse of the
+    text is judged by the behaviour probes below and by C01.)"""
+    try:
+        dm1 = model.RefDomain.from_text(text1)
+    except BaseException as e:
+        ctx.count("exported_text_not_read_by_reference_reader")
+        ctx.notes.setdefault("reference_reader_refused_export", {"error": lib.exc_name(e), "exported": text1[:1500]})
+        return
+    wm0, wm1 = model.World(dm, w.objects), model.World(dm1, w.objects)
+    for aname, act in dm.actions.items():
+        if aname not in dm1.actions:
+            continue  # vocabulary comparison reports it
+        act1 = dm1.actions[aname]
+        try:
+            calls = model.type_correct_calls(wm0, act)
+        except model.ModelError:
+            continue
+        rng.shuffle(calls)
+        for call in calls[:3 if thorough else 2]:
+            b = model.binding(act, call)
+            try:
+                b1 = model.binding(act1, call)
+                states, _ = gen.covering_states(rng, wm0, w, [(act.pre, b), (act.eff, b)], max_exhaustive_bits=4, n_random=8,
+                                                n_valuations=2, n_boundary=3)
+                more = gen.boundary_valuations(rng, wm1, [(act1.pre, b1), (act1.eff, b1)], states[0][1], 3) if states else []
+            except (model.ModelError, KeyError, IndexError, TypeError, ValueError):
+                continue
+            states = states[:24] + [(states[0][0], v) for v in more] + [(states[-1][0], v) for v in more]
+            for st in states:
+                e0 = probe.model_outcome(wm0, dm, aname, call, st)
+                if e0[0] != "app":
+                    continue
+                e1 = probe.model_outcome(wm1, dm1, aname, call, st)
+                if e1[0] == "outside":
+                    continue
+                ctx.count("compared:text-meaning")
+                bad = None
+                if e1[0] != "app":
+                    bad = {"kind": "exported-text-malformed-for-the-reference-semantics", "detail": e1[1]}
+                else:
+                    bad = probe.Probe.compare(e0, e1)
+                if bad:
+                    ctx.violation(f"roundtrip:exported-text-means-something-else:{bad['kind']}",
+                                  dict(wit, action=aname, call=list(call), state=model.show_state(st), discrepancy=bad,
+                                       source_precondition=sx.plain(act.pre or []), exported_precondition=sx.plain(act1.pre or []),
+                                       source_effect=sx.plain(act.eff or []), exported_effect=sx.plain(act1.eff or [])))
+                    return
+
+
 def judge_roundtrip(ctx, rng, w, src_text, order, n_calls, thorough):
     dm = model.RefDomain.from_text(src_text)
     try:
@@ -75,6 +128,7 @@ def judge_roundtrip(ctx, rng, w, src_text, order, n_calls, thorough):
         d2 = None
     if w is None:
         return "vocab-only"
+    text_equivalence(ctx, rng, w, dm, text1, wit, thorough)
     # behaviour
     p0 = probe.Probe(dom, dm, w)
     p1 = probe.Probe(d1, dm, w)
@@ -137,7 +191,7 @@ def run(ctx):
     rng = ctx.rng("c08")
     thorough = ctx.tier == "thorough"
     sweep = ctx.params.get("hashseed_sweep")
-    n = (25 if sweep else 110) if thorough else 9
+    n = (25 if sweep else 110) if thorough else 14
     for i in range(n):
         w = gen_source(rng)
         if w is None:
